@@ -75,6 +75,19 @@ var c13Earlier = []byte{0xFE, 0xDC, 0xBA, 0x98, 0x76, 0x54, 0x1F, 0xED, 0xBC, 0x
 
 const c13EarlierText = "fedcba98-7654-1fed-bcba-98765432ffff"
 
+
+// text and binary form of one object must agree at any moment: String() is asked BEFORE Marshal() on an object that
+// (in the used-receiver half of the cases) held another value first and was then given its fields
+func c13Text(m []byte) string {
+	h := hx(m)
+	if len(m) != 16 {
+		return h
+	}
+	return h[0:8] + "-" + h[8:12] + "-" + h[12:16] + "-" + h[16:20] + "-" + h[20:32]
+}
+
+func c13Agree(text string, m []byte) bool { return strings.ToLower(text) == c13Text(m) }
+
 func c13UUIDUnmarshal(a []string) string {
 	var u muuid.UUID
 	if c13Used(a) {
@@ -95,9 +108,13 @@ func c13UUIDMarshal(a []string) string {
 	u.Version = uint8(argU(a[0], 8))
 	u.Variant = uint8(argU(a[1], 8))
 	copy(u.Data[:], unhx(a[2]))
+	text := u.String()
 	m, err := u.Marshal()
 	if err != nil {
 		return "err"
+	}
+	if !c13Agree(text, m) {
+		return "ok text-and-binary-forms-disagree " + hxs(text) + " " + hx(m)
 	}
 	var w muuid.UUID
 	if c13Used(a) {
@@ -153,15 +170,22 @@ func c13V1ClockSeq(a []string) string {
 
 func c13V1Marshal(a []string) string {
 	var u uuid_v1.UUIDv1
+	if c13Used(a) {
+		u.FromString("fedcba98-7654-1fed-bcba-98765432ffff")
+	}
 	u.UUID.Variant = uint8(argU(a[0], 8))
 	u.Time = argU(a[1], 64)
 	u.SetClockSequence(uint16(argU(a[2], 16)))
 	if err := u.SetNodeID(unhx(a[3])); err != nil {
 		return "err"
 	}
+	text := u.String()
 	m, err := u.Marshal()
 	if err != nil {
 		return "err"
+	}
+	if !c13Agree(text, m) {
+		return "ok text-and-binary-forms-disagree " + hxs(text) + " " + hx(m)
 	}
 	var w uuid_v1.UUIDv1
 	if c13Used(a) {
@@ -207,6 +231,9 @@ func c13V2Unmarshal(a []string) string {
 
 func c13V2Marshal(a []string) string {
 	var u uuid_v2.UUIDv2
+	if c13Used(a) {
+		u.FromString("fedcba98-7654-2fed-bcba-98765432ffff")
+	}
 	u.UUID.Variant = uint8(argU(a[0], 8))
 	u.SetLocalDomainNumber(uint32(argU(a[1], 32)))
 	u.Time = argU(a[2], 64)
@@ -215,9 +242,13 @@ func c13V2Marshal(a []string) string {
 	if err := u.SetNodeID(unhx(a[5])); err != nil {
 		return "err"
 	}
+	text := u.String()
 	m, err := u.Marshal()
 	if err != nil {
 		return "err"
+	}
+	if !c13Agree(text, m) {
+		return "ok text-and-binary-forms-disagree " + hxs(text) + " " + hx(m)
 	}
 	var w uuid_v2.UUIDv2
 	if c13Used(a) {
@@ -258,11 +289,18 @@ func c13V8Unmarshal(a []string) string {
 
 func c13V8Marshal(a []string) string {
 	var u uuid_v8.UUIDv8
+	if c13Used(a) {
+		u.FromString("fedcba98-7654-8fed-bcba-98765432ffff")
+	}
 	u.UUID.Variant = uint8(argU(a[0], 8))
 	u.SetData(unhx(a[1]))
+	text := u.String()
 	m, err := u.Marshal()
 	if err != nil {
 		return "err"
+	}
+	if !c13Agree(text, m) {
+		return "ok text-and-binary-forms-disagree " + hxs(text) + " " + hx(m)
 	}
 	var w uuid_v8.UUIDv8
 	if c13Used(a) {
